@@ -39,8 +39,11 @@ def run_demo(src, wt, notes):
         return rc, "demo_test.go copied to %s; go test -run %s %s" % (pkg, runpat, pkg), out[-600:]
     return 99, "no demo", ""
 
+ROOT = os.environ.get("MUT_ROOT", "/tmp/mut")
+TAG = os.environ.get("MUT_TAG", "")
+
 def confirm(pid, k):
-    src = "/tmp/mut/%s/out/m%s" % (pid, k)
+    src = "%s/%s/out/m%s" % (ROOT, pid, k)
     if not os.path.exists(os.path.join(src, "patch.diff")):
         return {"ok": False, "why": "no patch"}
     notes = open(os.path.join(src, "NOTES.md")).read() if os.path.exists(os.path.join(src, "NOTES.md")) else ""
@@ -83,15 +86,15 @@ def main():
         print(json.dumps(r))
         sys.stdout.flush()
         if r.get("ok"):
-            src = "/tmp/mut/%s/out/m%s" % (pid, k)
-            dst = "/verif/seeded/%s-m%s" % (pid, k)
+            src = "%s/%s/out/m%s" % (ROOT, pid, k)
+            dst = "/verif/seeded/%s-%sm%s" % (pid, TAG, k)
             os.makedirs(dst, exist_ok=True)
             for f in ("patch.diff", "demo.sh", "demo_test.go", "NOTES.md"):
                 if os.path.exists(os.path.join(src, f)):
                     shutil.copy(os.path.join(src, f), os.path.join(dst, f))
             notes = open(os.path.join(src, "NOTES.md")).read() if os.path.exists(os.path.join(src, "NOTES.md")) else ""
             meta = {
-                "id": "%s-m%s" % (pid, k),
+                "id": "%s-%sm%s" % (pid, TAG, k),
                 "breaks_property": pid,
                 "source": "independent sub-agent given only the property text and a scratch worktree",
                 "needs_to_manifest": notes[:1500],
